@@ -4,7 +4,7 @@ From Coq Require Import Sorting.Sorted.
 From BV Require Import Base.Prelude Model.Block Model.ForkDB Model.Forkable Model.ForkableLookups
   Model.Burst Model.Hub Model.CursorResolver Model.Joining
   Spec.Consumer Spec.Universe Check.Burst_Check Check.C07_Check Spec.C06_Spec Spec.C07_Spec Spec.C09_Spec
-  Spec.C13_Spec Spec.C07_Compose_Spec Spec.C13_Stop_Spec Proofs.C07_ComposeCheck Proofs.C13_StopRun Proofs.C13_FullRefuted
+  Spec.C13_Spec Spec.C07_Compose_Spec Spec.C13_Stop_Spec Proofs.C07_ComposeCheck Proofs.C13_StopRun Proofs.C13_StopCursor Proofs.C13_FullRefuted
   Properties.C07_Compose.
 Local Open Scope N_scope.
 
@@ -17,6 +17,11 @@ Print Assumptions c13_stop_num_partial.
 Theorem c13_stop_cut_partial : C13_stop_cut.
 Proof. exact c13_stop_cut_proof. Qed.
 Print Assumptions c13_stop_cut_partial.
+
+(* from a cursor, when the files read up to the bundle of S reach the cursor block *)
+Theorem c13_stop_cursor_partial : C13_stop_cursor.
+Proof. exact c13_stop_cursor_proof. Qed.
+Print Assumptions c13_stop_cursor_partial.
 
 (* composed with c07_seamless_num: default filter, number mode *)
 Theorem c13_stop_reached_partial : C13_stop_reached.
@@ -84,3 +89,20 @@ Example c13_stop_nonvacuous_runs :
   = ([(SNewIrr, 5); (SNewIrr, 6); (SNewIrr, 7); (SNewIrr, 8); (SNewIrr, 9); (SNewIrr, 10); (SNewIrr, 11);
       (SNewIrr, 12); (SNewIrr, 13)], JStop).
 Proof. vm_compute. repeat split; reflexivity. Qed.
+
+(* cursor mode with a stop block: the consumer of c07_compose_nonvacuous_cursor (cursor on the forked 109, LIB 6),
+   stop block 17 reached live; the files read up to the bundle of 17 (blocks below 20) reach the cursor block *)
+Definition cx_ccs : jcfg := mkJ 2 0 10 1 0 (Some cx_cu) 17 0 0.
+
+Example c13_stop_nonvacuous_cursor :
+  j_stop cx_ccs <> 0 /\ j_mode cx_ccs = 1 /\ j_cursor cx_ccs = Some cx_cu /\
+  filter_pass cx_ccs SNew = true /\ filter_pass cx_ccs SNewIrr = true /\
+  reached (file_delivery cx_merged (rn (cu_lib cx_cu)) (j_stop cx_ccs) (j_bundle cx_ccs)) cx_cu /\
+  cx_show (stream_run cx_ccs cx_w [(3, 1); (12, 2)] 15 cx_merged [cx_f9])
+  = ([(SUndo, 109); (SNewIrr, 9); (SNewIrr, 10); (SNewIrr, 11); (SNewIrr, 12); (SNewIrr, 13); (SNew, 14); (SNew, 15);
+      (SNew, 116); (SUndo, 116); (SNew, 16); (SNew, 17)], JStop).
+Proof.
+  split; [discriminate|]. split; [reflexivity|]. split; [reflexivity|]. split; [reflexivity|]. split; [reflexivity|].
+  split; [exists (cx_b 9); split; [vm_compute; tauto | vm_compute; discriminate]|].
+  vm_compute. reflexivity.
+Qed.
